@@ -14,13 +14,13 @@ from .. import tlc, graph, common, servers
 
 # tokens of the model; {CR} {LF} {NUL} stand for the control characters (a TLA+ string cannot hold them)
 NAMES = {"X-A": "x-a", "x-a": "x-a", "X-b": "x-b", "x{LF}b": "x{LF}b", "n{NUL}": "n{NUL}"}
-VALUES = ["v1", "v{CR}3", "v{LF}4", "v{NUL}5", "caf\u00e9", ""]
-BAD = {k for k in NAMES if "{" in k} | {v for v in VALUES if "{" in v}
+VALUES = ["v1", "v{CR}3", "v{LF}4", "v{NUL}5", "caf{E9}", ""]
+BAD = {t for t in list(NAMES) + VALUES if any(x in t for x in ("{CR}", "{LF}", "{NUL}"))}
 CTL = ("\r", "\n", "\0")
 
 
 def real(tok):
-    return tok.replace("{CR}", "\r").replace("{LF}", "\n").replace("{NUL}", "\0")
+    return tok.replace("{CR}", "\r").replace("{LF}", "\n").replace("{NUL}", "\0").replace("{E9}", "\u00e9")
 
 
 def has_ctl(s):
